@@ -5,7 +5,7 @@ independent std::map twin (and std::unordered_multimap for the wrapper) which is
 import os, re
 
 MS = [1, 2, 3, 4, 7, 15]
-GEN = ['gen_growcap.json', 'gen_arraybucket.json', 'gen_arraybucket_cnt.json', 'gen_arraybucket_s.json', 'gen_hashmultimap.json', 'gen_versioncheck.json', 'gen_versioncheck_a.json', 'gen_wrap_eq.json', 'gen_wrap_erase.json']
+GEN = ['gen_growcap.json', 'gen_arraybucket.json', 'gen_arraybucket_cnt.json', 'gen_arraybucket_s.json', 'gen_hashmultimap.json', 'gen_versioncheck.json', 'gen_versioncheck_a.json', 'gen_wrap_eq.json', 'gen_wrap_erase.json', 'gen_ab_copy.json', 'gen_ab_ops.json']
 BUCKETS = ['L.c', 'O8.c', 'O2.c', 'L.f', 'O8.f', 'O2.f']
 
 # ----------------------------------------------------------------------------- generators
@@ -577,6 +577,7 @@ def gen_kernel_cases(ctx):
             ops2.append(t_)
             if r.chance(1, 4): ops2.append('I,%d,%d' % (r.below(4), r.below(3)))
             if r.chance(1, 3): ops2.append('U')
+            if r.chance(1, 6): ops2.append(r.choice(['C', 'C,0', 'C,1', 'E,0', 'E,1']))
         cases.append('hx ' + ' '.join(ops2))
     # two real ArrayBucket objects, every member that writes mPtr (frame machine ab2_step)
     for i in range(300 if ctx.quick() else 1500):
